@@ -124,7 +124,7 @@ fn run(prop: &str, tier: &str) -> i32 {
             "note": "pages shorter than min(limit or 10, 30) although more current items follow. For unfiltered listings such a page is a violation; for the filtered listing (cw1-subkeys AllAllowances, which drops expired entries) a short non-empty page would only be reported here, an empty one is a violation (the walk would end early). The real code filters before `take(limit)`, so none occur.",
         }),
     );
-    rep.alphabet = "pager states (listing, store of n items, limit, cursor): 45 listing variants (cw20-base AllAccounts (all funded; and with runs of emptied accounts at the start, middle and end of the key order) / AllAllowances / AllSpenderAllowances (AllAllowances also for an owner without a balance record; each also after `migrate` from the pre-0.14 layout with stored cw2 version 0.13.4 / 0.10.3 / 0.10.0-soon4 / 0.9.1 / 0.2.3 - also migrated at a later block at which some allowances have expired -, after full revocations / partial decreases that set a new expiry / re-grants of mutual allowances at the start, middle and end of the key order, and after TransferFrom / BurnFrom / SendFrom draws that use up allowances exactly); cw1-subkeys AllAllowances with seven expiry patterns × query blocks (one at a block time with a sub-second part and AtTime expiries inside that second), AllPermissions (also with permission holders that are admins, made admin before or promoted after); cw3-fixed and cw3-flex ListProposals / ReverseProposals / ListVotes (also with a zero-weight proposer, whose stored ballot has weight 0) / ListVoters (cw3-flex ListVotes also after some / all of the voters left the backing group or were re-weighted to 0); cw4-group and cw4-stake ListMembers (removed / unbonded / never-admitted addresses are cursors too); cw20-ics20 ListAllowed); limits {absent, 0, 1, 2, 9, 10, 11, 29, 30, 31, 32, 100, 255, 256, 257, 300, 512, 65535, 65536, 2^32-1}; cursors: none, every stored key as start_after / start_before (for the filtered listing also the keys of expired entries), and the walk from the beginning with the last returned key as next cursor until an empty page".into();
+    rep.alphabet = "pager states (listing, store of n items, limit, cursor): 45 listing variants (cw20-base AllAccounts (all funded; and with runs of emptied accounts at the start, middle and end of the key order) / AllAllowances / AllSpenderAllowances (AllAllowances also for an owner without a balance record; each also after `migrate` from the pre-0.14 layout with stored cw2 version 0.13.4 / 0.10.3 / 0.10.0-soon4 / 0.9.1 / 0.2.3 - also migrated at a later block at which some allowances have expired -, after full revocations / partial decreases that set a new expiry / re-grants of mutual allowances at the start, middle and end of the key order, and after TransferFrom / BurnFrom / SendFrom draws that use up allowances exactly, in a store that also holds pairs created by a first-time grant of amount 0 without expiry); cw1-subkeys AllAllowances with seven expiry patterns × query blocks (one at a block time with a sub-second part and AtTime expiries inside that second), AllPermissions (also with permission holders that are admins, made admin before or promoted after); cw3-fixed and cw3-flex ListProposals / ReverseProposals / ListVotes (also with a zero-weight proposer, whose stored ballot has weight 0) / ListVoters (cw3-flex ListVotes also after some / all of the voters left the backing group or were re-weighted to 0); cw4-group and cw4-stake ListMembers (removed / unbonded / never-admitted addresses are cursors too); cw20-ics20 ListAllowed); limits {absent, 0, 1, 2, 9, 10, 11, 29, 30, 31, 32, 100, 255, 256, 257, 300, 512, 65535, 65536, 2^32-1}; cursors: none, every stored key as start_after / start_before (for the filtered listing also the keys of expired entries), and the walk from the beginning with the last returned key as next cursor until an empty page".into();
     rep.oracle = "expected listing = the constructed key set sorted by key bytes (numerically for proposal ids, descending for ReverseProposals), each key confirmed by the contract's point query (Balance, Allowance, Permissions, Proposal, Vote, Voter, Member, Allowed); every page must be the run of the next min(limit or 10, 30) expected entries after the cursor (fewer only at the end), each entry equal to the point query's answer; no page exceeds the requested limit, 30, or 10 without a limit; the page without a limit equals the page with limit 10; limit 0 gives an empty page; for every limit >= 1 the walk until an empty page returns every current item exactly once in order and terminates".into();
     rep.bounds = format!(
         "complete enumeration of sizes {:?} × 20 limits × (n+1) cursors + 20 walks per (listing, size){}; stores contain noise entries in neighbouring prefixes/namespaces",
